@@ -1,4 +1,5 @@
 import Hls.Gen.MuxerConsts
+import Hls.Gen.MuxerOrder
 import Hls.Muxer.Model
 /-!
 # T1 pins of the muxer model
@@ -87,5 +88,35 @@ theorem pin_msn_ahead :
 /-- AAC access units are 1024 samples apart (`buildAac`) -/
 theorem pin_aac_spacing :
     (buildAac 0 0 48000 48000 0 [1, 2] [1, 1]).map (·.dts) = [0, (aacSamplesPerAU : Int)] := by decide
+
+/-! ## Published only when complete
+
+The model finalizes a part / segment before it registers its path and before it lists it (`rotateParts`,
+`rotateSegments` of `Hls/Muxer/Model.lean`). In the Go code a request is dispatched under the server's own mutex
+only, so the same order is needed there for C05 ("keeps returning identical bytes") and C06 (the preload-hint
+request returns the part's bytes): pinned on the regenerated call order of the two functions. -/
+
+def firstIdx (l : List String) (x : String) : Option Nat :=
+  match l.findIdx? (· == x) with
+  | some i => some i
+  | none => none
+
+def precedesAll (l : List String) (x y : String) : Bool :=
+  match firstIdx l x, firstIdx l y with
+  | some i, some j => decide (i < j)
+  | _, _ => false
+
+/-- `rotateParts`: `part.finalize` comes before the part is appended to its segment's parts and before any
+    path is registered; `rotateSegments`: `segment.finalize` before the segment is listed and before its path is
+    registered, and paths of expired segments are unregistered only after that. -/
+theorem pin_publish_after_finalize :
+    precedesAll Hls.Gen.MuxerOrder.rotatePartsCalls "finalize" "append:parts" = true ∧
+    precedesAll Hls.Gen.MuxerOrder.rotatePartsCalls "finalize" "registerPath" = true ∧
+    precedesAll Hls.Gen.MuxerOrder.rotateSegmentsCalls "finalize" "append:segments" = true ∧
+    precedesAll Hls.Gen.MuxerOrder.rotateSegmentsCalls "finalize" "registerPath" = true ∧
+    precedesAll Hls.Gen.MuxerOrder.rotateSegmentsCalls "registerPath" "unregisterPath" = true ∧
+    (Hls.Gen.MuxerOrder.rotatePartsCalls.filter (· == "finalize")).length = 1 ∧
+    (Hls.Gen.MuxerOrder.rotateSegmentsCalls.filter (· == "finalize")).length = 1 := by
+  decide
 
 end Hls.Props.MuxerPins
